@@ -1,5 +1,6 @@
 ---- MODULE MC_tiny ----
 EXTENDS MCOFWire
 TheCases == Uniform({"hello", "flow_mod", "packet_out", "srep_flow", "actions"}) \cup Outputs(0)
+TheRCases == {}
 TheAround == AroundBoth
 ====
